@@ -158,9 +158,12 @@ package master
 //@   requires all(db, "string", has(state.ShardStates, db) ==> state.ShardStates[db] != nil)
 //@   modifies *
 //@   ensures[every_hosted_shard_is_online] all(db, "string", (has(cast(replicasOf(state, node.ID), "map[string][]models.ShardID"), db) && has(state.ShardStates, db)) ==> forall(i, 0, len(cast(replicasOf(state, node.ID), "map[string][]models.ShardID")[db]), has(state.ShardStates[db], cast(replicasOf(state, node.ID), "map[string][]models.ShardID")[db][i]) && state.ShardStates[db][cast(replicasOf(state, node.ID), "map[string][]models.ShardID")[db][i]].State == models.OnlineShard))
+//@   ensures[a_shard_is_left_as_it_was_or_is_online_under_the_started_node] all(d3, "string", has(state.ShardStates, d3) ==> all(k, "models.ShardID", has(state.ShardStates[d3], k) ==> ((state.ShardStates[d3][k].State == old(state.ShardStates[d3][k].State) && state.ShardStates[d3][k].Leader == old(state.ShardStates[d3][k].Leader)) || (state.ShardStates[d3][k].State == models.OnlineShard && state.ShardStates[d3][k].Leader == node.ID))))
 //@   loop 1 invariant state.ShardStates == old(state.ShardStates) && replicasOnOnlineNode == cast(replicasOf(state, node.ID), "map[string][]models.ShardID") && all(db, "string", has(state.ShardStates, db) ==> state.ShardStates[db] != nil)
+//@   loop 1 invariant[a_shard_is_left_as_it_was_or_is_online_under_the_started_node] all(d3, "string", has(state.ShardStates, d3) ==> all(k, "models.ShardID", has(state.ShardStates[d3], k) ==> ((state.ShardStates[d3][k].State == old(state.ShardStates[d3][k].State) && state.ShardStates[d3][k].Leader == old(state.ShardStates[d3][k].Leader)) || (state.ShardStates[d3][k].State == models.OnlineShard && state.ShardStates[d3][k].Leader == node.ID))))
 //@   loop 1 invariant all(db, "string", (visited(replicasOnOnlineNode, db) && has(state.ShardStates, db)) ==> forall(i, 0, len(replicasOnOnlineNode[db]), has(state.ShardStates[db], replicasOnOnlineNode[db][i]) && state.ShardStates[db][replicasOnOnlineNode[db][i]].State == models.OnlineShard))
 //@   loop 2 invariant state.ShardStates == old(state.ShardStates) && replicasOnOnlineNode == cast(replicasOf(state, node.ID), "map[string][]models.ShardID") && all(d2, "string", has(state.ShardStates, d2) ==> state.ShardStates[d2] != nil) && shardStates == state.ShardStates[db] && has(state.ShardStates, db) && shards == replicasOnOnlineNode[db] && has(replicasOnOnlineNode, db)
+//@   loop 2 invariant[a_shard_is_left_as_it_was_or_is_online_under_the_started_node] all(d3, "string", has(state.ShardStates, d3) ==> all(k, "models.ShardID", has(state.ShardStates[d3], k) ==> ((state.ShardStates[d3][k].State == old(state.ShardStates[d3][k].State) && state.ShardStates[d3][k].Leader == old(state.ShardStates[d3][k].Leader)) || (state.ShardStates[d3][k].State == models.OnlineShard && state.ShardStates[d3][k].Leader == node.ID))))
 //@   loop 2 invariant all(d2, "string", (visited(replicasOnOnlineNode, d2) && d2 != db && has(state.ShardStates, d2)) ==> forall(i, 0, len(replicasOnOnlineNode[d2]), has(state.ShardStates[d2], replicasOnOnlineNode[d2][i]) && state.ShardStates[d2][replicasOnOnlineNode[d2][i]].State == models.OnlineShard))
 //@   loop 2 invariant forall(i, 0, rangeindex + 1, has(shardStates, shards[i]) && shardStates[shards[i]].State == models.OnlineShard)
 //@ end
